@@ -19,8 +19,8 @@ import random
 from fractions import Fraction
 
 import glom
-from glom import T, SKIP, STOP, Val
-from glom.grouping import Group, First, Avg, Max, Min, Limit
+from glom import T, SKIP, STOP, Val, Auto
+from glom.grouping import Group, First, Avg, Max, Min, Limit, Sample
 from glom.reduction import Sum, Count, Flatten, Merge
 
 import codec
@@ -40,8 +40,17 @@ HISTORIC = (('rawbucket', 'SMALL_IDS'), ('nobase', 'SMALL'))
 
 # ---- abstract spec -> real spec ----------------------------------------------------------
 def _key_fn(kf, spelling, ub):
-    """ub: None, or (unbox T-expression, unbox callable) when items are boxed"""
+    """ub: None, or (unbox T-expression, unbox callable) when items are boxed;
+    spelling 0 = T-expressions / builtins, 1 = lambdas, 2 = spelling 0 wrapped in Auto(...)"""
+    if spelling == 2:
+        return Auto(_key_fn(kf, 0, ub))
     if ub is None:
+        if spelling == 0 and kf == 'len':
+            return len
+        if spelling == 0 and kf == 'first':
+            return T[0]
+        if kf in ('len', 'first'):
+            return {'len': lambda t: len(t), 'first': lambda t: t[0]}[kf]
         if spelling == 0:
             if kf == 'ident':
                 return T
@@ -64,7 +73,7 @@ def _key_fn(kf, spelling, ub):
 
 
 def _val_fn(vf, spelling):
-    if spelling == 0:
+    if spelling in (0, 2):
         if vf == 'ident':
             return T
         if vf == 'inc':
@@ -101,12 +110,16 @@ def build_group(levels, spelling, boxed=False):
         ub = (T[0], lambda b: b[0]) if box_kind(levels) == 'Flatten' else (T['v'], lambda b: b['v'])
     if leaf['op'] == 'list':
         cur = [_val_fn(leaf['val'], spelling)]
+    elif leaf['op'] == 'list2':
+        cur = [_val_fn(leaf['val'], spelling), _val_fn('x10', spelling)]
     elif leaf['op'] == 'last':
         cur = _val_fn(leaf['val'], spelling)
     else:
         a = leaf['agg']
         if a in ('First', 'Max', 'Min', 'Avg', 'Count'):
             cur = {'First': First, 'Max': Max, 'Min': Min, 'Avg': Avg, 'Count': Count}[a]()
+        elif a == 'Sample':
+            cur = Sample(leaf['n'])
         elif leaf['val'] == 'gsum':
             cur = Sum(Group(Sum()))
         elif leaf['val'] == 'gcount':
@@ -128,7 +141,7 @@ def build_group(levels, spelling, boxed=False):
         if lv['op'] == 'dict':
             # T is one object: only one level may use it as its key spec, so that the key-spec
             # objects of different levels stay distinct objects (as in the specification)
-            k = _key_fn(lv['key'], 1 if (lv['key'] == 'ident' and used_t) else spelling, ub)
+            k = _key_fn(lv['key'], 1 if (lv['key'] == 'ident' and used_t and spelling == 0) else spelling, ub)
             used_t = used_t or k is T
             cur = {k: cur}
             keyobjs.insert(0, k)
@@ -148,7 +161,7 @@ class RealSpec:
         self.boxed = box_kind(levels) if boxed else None
         self.g, self.objs, self.keyobjs = build_group(levels, spelling, boxed)
         # id(spec node) -> abstract value ; objects used as accumulator-tree keys -> abstract key
-        self.idmap = {id(o): l for l, o in enumerate(self.objs, 1) if levels[l - 1]['op'] in ('dict', 'list')}
+        self.idmap = {id(o): l for l, o in enumerate(self.objs, 1) if levels[l - 1]['op'] in ('dict', 'list', 'list2')}
         self.objmap = {}
         for l, o in enumerate(self.objs, 1):
             if levels[l - 1]['op'] in ('agg', 'limit'):
@@ -171,6 +184,10 @@ class RealSpec:
             return x['i']
         if x['k'] == 'id':
             return id(self.objs[x['n'] - 1])
+        if x['k'] == 'str':
+            return x['s']
+        if x['k'] == 'tup':
+            return tuple(self.item(y) for y in x['items'])
         raise vlib.MachineryError('bad item %r' % (x,))
 
     # ---- projection of an observed result into the structural values of the spec ----
@@ -202,6 +219,8 @@ class RealSpec:
             return {'k': 'dict', 'items': [[self.proj(k, depth + 1), self.proj(v, depth + 1)] for k, v in o.items()]}
         if type(o) is list:
             return {'k': 'list', 'items': [self.proj(v, depth + 1) for v in o]}
+        if type(o) is tuple:
+            return {'k': 'tup', 'items': [self.proj(v, depth + 1) for v in o]}
         return {'k': 'opaque', 's': type(o).__name__}
 
 
@@ -228,6 +247,12 @@ def make_target(rs, items, variant, boxed=None):
             cells.append({'cls': 'dict', 'items': [[{'k': 'int', 'i': t % 2}, {'k': 'int', 'i': t}],
                                                    [{'k': 'str', 's': 'v'}, {'k': 'int', 'i': t}]]})
             refs.append({'k': 'ref', 'a': len(cells)})
+        elif x['k'] == 'str':
+            refs.append({'k': 'str', 's': t})
+        elif x['k'] == 'tup':
+            cells.append({'cls': 'tuple', 'items': [{'k': 'int', 'i': y} if isinstance(y, int) else {'k': 'str', 's': y}
+                                                    for y in t]})
+            refs.append({'k': 'ref', 'a': len(cells)})
         else:
             refs.append({'k': 'int', 'i': t})
     cells.append({'cls': 'tuple' if variant == 'tuple' else 'list', 'items': refs})
@@ -248,6 +273,10 @@ def observe(rs, thunk):
 def _key_apply(kf, x):
     if kf == 'ident':
         return ('v', json.dumps(x, sort_keys=True))
+    if kf == 'len':
+        return len(x['s']) if x['k'] == 'str' else len(x['items'])
+    if kf == 'first':
+        return x['s'][0] if x['k'] == 'str' else json.dumps(x['items'][0], sort_keys=True)
     i = x['i']
     return {'mod2': lambda: i % 2, 'half': lambda: i // 2, 'const': lambda: 7,
             'skip0': lambda: 'SKIP' if i == 0 else i % 2, 'skipodd': lambda: 'SKIP' if i % 2 else i}[kf]()
@@ -271,15 +300,18 @@ def regions(levels, items):
     leaf = levels[-1]
     ps = passed(levels, items)
     nk = sum(1 for lv in levels if lv['op'] == 'dict')
-    if leaf['op'] == 'agg' and leaf['agg'] == 'First' and nk >= 1:
-        seen = set()
+    # a node that answers STOP when full (First: capacity 1, a Limit under the key levels: n)
+    caps = [1] if (leaf['op'] == 'agg' and leaf['agg'] == 'First') else []
+    caps += [lv['n'] for l, lv in enumerate(levels) if lv['op'] == 'limit' and l > 0]
+    if caps and nk >= 1:
+        offered = {}
         for x in ps:
             if not _survives(levels, x):
                 continue
             path = tuple(_key_apply(lv['key'], x) for lv in levels if lv['op'] == 'dict')
-            if path in seen:
-                out.add('first-under-key-stop')
-            seen.add(path)
+            offered[path] = offered.get(path, 0) + 1
+        if any(n > min(caps) for n in offered.values()):
+            out.add('first-under-key-stop')
     d = 1 if levels[0]['op'] == 'limit' else 0
     if levels[d]['op'] == 'dict' and levels[d + 1]['op'] != 'last' and \
             any(_key_apply(levels[d]['key'], x) != 'SKIP' and not _survives(levels, x) for x in ps):
@@ -304,7 +336,7 @@ def real_specs(levels):
     key = json.dumps(levels, sort_keys=True)
     if key not in _CACHE:
         bk = box_kind(levels)
-        _CACHE[key] = dict(plain=[RealSpec(levels, 0), RealSpec(levels, 1)],
+        _CACHE[key] = dict(plain=[RealSpec(levels, 0), RealSpec(levels, 1), RealSpec(levels, 2)],
                            boxed=[RealSpec(levels, 0, True), RealSpec(levels, 1, True)]
                            if bk and not is_inner(levels) else [],
                            last={})
@@ -333,6 +365,14 @@ def _check_result(out, levels, items, ev, rs, how, res, obs, heap=None, cells=No
         why = 'input mutated'
     elif not ev['def']:
         out.unconstrained += 1
+        leaf = levels[-1]
+        if leaf['op'] == 'agg' and leaf['agg'] == 'Sample' and not any(lv['op'] == 'dict' for lv in levels):
+            # more than n values offered: the sample is random, but it is n of the offered values
+            pool = [json.dumps(x, sort_keys=True) for x in passed(levels, items)]
+            got = [json.dumps(x, sort_keys=True) for x in obs.get('items', [])] if obs.get('k') == 'list' else None
+            if len(pool) > leaf['n'] and (got is None or len(got) != leaf['n'] or
+                                          any(got.count(g) > pool.count(g) for g in got)):
+                why = 'Sample(%d) is not %d of the values offered' % (leaf['n'], leaf['n'])
     elif obs != ev['pred']:
         why = 'result differs from the reference grouping'
     if why is None:
@@ -369,6 +409,8 @@ def replay_flat(levels, items, ev, out):
     specs['turn'] = turn = specs.get('turn', 0) + 1
     plans = [(specs['plain'][0], 0, 'list', None),
              (specs['plain'][0], 0, 'gen', None) if turn % 2 else (specs['plain'][1], 1, 'tuple', None)]
+    if turn % 3 == 0:
+        plans.append((specs['plain'][2], 2, 'list', None))          # key specs wrapped in Auto(...)
     if specs['boxed']:
         plans.append((specs['boxed'][0], 0, 'list', True) if turn % 2 else (specs['boxed'][1], 1, 'gen', True))
     for rs, spelling, variant, boxed in plans:
@@ -500,26 +542,41 @@ KFS = ['ident', 'mod2', 'half', 'const', 'skip0', 'skipodd']
 AGGS = ['First', 'Max', 'Min', 'Avg', 'Count', 'Sum', 'Flatten', 'Merge']
 
 
+ORD_KFS = ['ident', 'len', 'first']
+WORDS = ['a', 'ab', 'b', 'ba']
+
+
 def rand_spec(rng):
+    """-> (levels, item kind)"""
     nk = rng.choice([0, 1, 1, 2, 2, 3])
+    kind = rng.choice(['int', 'int', 'int', 'int', 'str', 'tup'])
     levels = []
     r = rng.random()
     if r < 0.25:
         levels.append({'op': 'limit', 'n': rng.choice([0, 1, 2, 3, 5, 8])})
-    levels += [{'op': 'dict', 'key': rng.choice(KFS)} for _ in range(nk)]
+    levels += [{'op': 'dict', 'key': rng.choice(KFS if kind == 'int' else ORD_KFS)} for _ in range(nk)]
     r = rng.random()
-    if r < 0.25:
-        vfs = ['ident', 'inc', 'x10', 'skip3']
-        levels.append({'op': 'list', 'agg': '', 'val': rng.choice(vfs)})
+    if kind != 'int':
+        leaf = rng.choice([{'op': 'list', 'agg': '', 'val': 'ident'}, {'op': 'last', 'agg': '', 'val': 'ident'}] +
+                          [{'op': 'agg', 'agg': a, 'val': 'ident'} for a in ('First', 'Max', 'Min', 'Max', 'Min', 'Count')] +
+                          [{'op': 'agg', 'agg': 'Sample', 'val': 'ident', 'n': rng.choice([2, 20])}])
+    elif r < 0.2:
+        leaf = {'op': 'list', 'agg': '', 'val': rng.choice(['ident', 'inc', 'x10', 'skip3'])}
+    elif r < 0.27:
+        leaf = {'op': 'list2', 'agg': '', 'val': rng.choice(['ident', 'inc'])}
     elif r < 0.4:
-        vfs = ['ident', 'x10'] + (['skip3'] if nk > 0 else [])
-        levels.append({'op': 'last', 'agg': '', 'val': rng.choice(vfs)})
+        leaf = {'op': 'last', 'agg': '', 'val': rng.choice(['ident', 'x10'] + (['skip3'] if nk > 0 else []))}
+    elif r < 0.47:
+        leaf = {'op': 'agg', 'agg': 'Sample', 'val': 'ident', 'n': rng.choice([2, 3, 20])}
     else:
         a = rng.choice(AGGS)
         vf = {'Flatten': rng.choice(['pair', 'pair', 'gcount']), 'Merge': rng.choice(['kv', 'kv', 'gbsum']),
               'Sum': rng.choice(['ident', 'inc', 'gsum'])}.get(a, 'ident')
-        levels.append({'op': 'agg', 'agg': a, 'val': vf})
-    return levels
+        leaf = {'op': 'agg', 'agg': a, 'val': vf}
+    if nk >= 1 and leaf['val'] != 'skip3' and leaf.get('agg') != 'Sample' and rng.random() < 0.2:
+        levels.append({'op': 'limit', 'n': rng.choice([1, 2, 3])})      # a Limit under the key levels
+    levels.append(leaf)
+    return levels, kind
 
 
 def id_safe(levels):
@@ -529,9 +586,13 @@ def id_safe(levels):
          (leaf['op'] == 'agg' and leaf['agg'] in ('First', 'Count')))
 
 
-def rand_hist(rng, levels, max_items, nest):
+def rand_hist(rng, levels, max_items, nest, kind='int'):
     pool = [{'k': 'int', 'i': i} for i in range(-3, 8)]
-    if id_safe(levels) and rng.random() < 0.5:
+    if kind == 'str':
+        pool = [{'k': 'str', 's': w} for w in WORDS]
+    elif kind == 'tup':
+        pool = [{'k': 'tup', 'items': [{'k': 'int', 'i': i}, {'k': 'str', 's': w}]} for i in (0, 1, 2) for w in WORDS]
+    elif id_safe(levels) and rng.random() < 0.5:
         pool = pool[2:5] + [{'k': 'id', 'n': l} for l, lv in enumerate(levels, 1) if lv['op'] in ('dict', 'list')]
     hist = []
     if not nest:
@@ -557,10 +618,10 @@ def record(check, n, seed):
     rng = random.Random(seed)
     rows = []
     for k in range(n):
-        levels = rand_spec(rng)
+        levels, kind = rand_spec(rng)
         nest = rng.random() < 0.3
-        hist = rand_hist(rng, levels, 14, nest)
-        rs = RealSpec(levels, rng.choice([0, 1]))      # a fresh spec object per row
+        hist = rand_hist(rng, levels, 14, nest, kind)
+        rs = RealSpec(levels, rng.choice([0, 1, 2]))   # a fresh spec object per row
         results = play_hist(rs, hist)
         rows.append(dict(spec=levels, hist=hist, obs=[results[e][1] for e in sorted(results)]))
     # self-test of the binding: one recorded row with a corrupted observation must be rejected
@@ -606,7 +667,8 @@ def tla_set(xs):
 def consts(**kw):
     base = dict(MaxKeyLevels=1, MaxItems=3, MaxTotal=3, ItemMax=2, NegItems=0, MaxEvals=1, MaxDepth=1, WithIds='FALSE',
                 KFs=tla_set(KFS), Aggs=tla_set(AGGS), VFs=tla_set(['ident', 'inc', 'x10', 'skip3']),
-                LimitNs='{99, 0, 2}', Fixes='{}', Mutant='"none"')
+                LimitNs='{99, 0, 2}', ItemKind='"int"', NestedLimitNs='{99}', SampleNs='{}', Fixes='{}',
+                Mutant='"none"')
     base.update(kw)
     return base
 
@@ -618,6 +680,15 @@ UNIVERSES = {
                         LimitNs='{99, 2}')),
         ('flat-deep', consts(MaxKeyLevels=3, MaxItems=3, MaxTotal=3, ItemMax=2, KFs=tla_set(['half', 'skipodd']),
                              Aggs=tla_set(['First', 'Avg', 'Flatten']), VFs=tla_set(['ident']), LimitNs='{99, 2}')),
+        ('ord-str', consts(MaxKeyLevels=1, MaxItems=3, MaxTotal=3, ItemKind='"str"', KFs=tla_set(ORD_KFS),
+                           Aggs=tla_set(['First', 'Max', 'Min', 'Count']), VFs=tla_set(['ident']), LimitNs='{99, 2}',
+                           SampleNs='{2}')),
+        ('ord-tup', consts(MaxKeyLevels=1, MaxItems=3, MaxTotal=3, ItemKind='"tup"', KFs=tla_set(ORD_KFS),
+                           Aggs=tla_set(['First', 'Max', 'Min', 'Count']), VFs=tla_set(['ident']), LimitNs='{99, 2}',
+                           SampleNs='{2}')),
+        ('constructs', consts(MaxKeyLevels=1, MaxItems=3, MaxTotal=3, ItemMax=2, NegItems=1, KFs=tla_set(['mod2', 'skip0']),
+                              Aggs=tla_set(['First', 'Max', 'Sum']), VFs=tla_set(['ident', 'list2']), LimitNs='{99, 2}',
+                              NestedLimitNs='{99, 1, 2}', SampleNs='{2}')),
         ('limit0', consts(MaxKeyLevels=1, MaxItems=2, MaxTotal=2, ItemMax=1, KFs=tla_set(['mod2']), LimitNs='{0}')),
         ('ids', consts(MaxKeyLevels=2, MaxItems=3, MaxTotal=3, ItemMax=1, WithIds='TRUE', KFs=tla_set(['ident']),
                        Aggs=tla_set(['First', 'Count']), VFs=tla_set(['ident']), LimitNs='{99, 2}')),
@@ -635,6 +706,15 @@ UNIVERSES = {
         ('flat-deep', consts(MaxKeyLevels=3, MaxItems=4, MaxTotal=4, ItemMax=2, KFs=tla_set(['mod2', 'half', 'skipodd']),
                              Aggs=tla_set(['First', 'Avg', 'Flatten', 'Count']), VFs=tla_set(['ident']),
                              LimitNs='{99, 3}')),
+        ('ord-str', consts(MaxKeyLevels=2, MaxItems=4, MaxTotal=4, ItemKind='"str"', KFs=tla_set(ORD_KFS),
+                           Aggs=tla_set(['First', 'Max', 'Min', 'Count']), VFs=tla_set(['ident']), LimitNs='{99, 2}',
+                           NestedLimitNs='{99, 1}', SampleNs='{2}')),
+        ('ord-tup', consts(MaxKeyLevels=2, MaxItems=4, MaxTotal=4, ItemKind='"tup"', KFs=tla_set(ORD_KFS),
+                           Aggs=tla_set(['First', 'Max', 'Min', 'Count']), VFs=tla_set(['ident']), LimitNs='{99, 2}',
+                           SampleNs='{2}')),
+        ('constructs', consts(MaxKeyLevels=2, MaxItems=4, MaxTotal=4, ItemMax=2, NegItems=1, KFs=tla_set(['mod2', 'skip0']),
+                              Aggs=tla_set(['First', 'Max', 'Sum', 'Flatten']), VFs=tla_set(['ident', 'list2']),
+                              LimitNs='{99, 3}', NestedLimitNs='{99, 1, 2}', SampleNs='{2, 3}')),
         ('limit0', consts(MaxKeyLevels=2, MaxItems=2, MaxTotal=2, ItemMax=1, KFs=tla_set(['mod2', 'skip0']), LimitNs='{0}')),
         ('ids', consts(MaxKeyLevels=3, MaxItems=4, MaxTotal=4, ItemMax=1, WithIds='TRUE', KFs=tla_set(['ident']),
                        Aggs=tla_set(['First', 'Count']), VFs=tla_set(['ident']), LimitNs='{99, 2}')),
@@ -650,6 +730,10 @@ SMALL_IDS = consts(MaxKeyLevels=1, MaxItems=3, MaxTotal=3, ItemMax=1, WithIds='T
                    Aggs=tla_set(['First', 'Count']), VFs=tla_set(['ident']), LimitNs='{99}')
 SMALL_INNER = consts(MaxKeyLevels=1, MaxItems=2, MaxTotal=2, ItemMax=1, NegItems=1, KFs=tla_set(['mod2']),
                      Aggs=tla_set(['Sum', 'Flatten', 'Merge']), VFs=tla_set(['ident', 'inner']), LimitNs='{99}')
+SMALL_ORD = consts(MaxKeyLevels=1, MaxItems=2, MaxTotal=2, ItemKind='"str"', KFs=tla_set(['len']),
+                   Aggs=tla_set(['Max', 'Min']), VFs=tla_set(['ident']), LimitNs='{99}')
+SMALL_CONS = consts(MaxKeyLevels=1, MaxItems=3, MaxTotal=3, ItemMax=1, KFs=tla_set(['mod2']), Aggs=tla_set(['Max']),
+                    VFs=tla_set(['ident', 'list2']), LimitNs='{99}', NestedLimitNs='{99, 1}', SampleNs='{2}')
 SMALL_NESTED = consts(MaxKeyLevels=1, MaxItems=2, MaxTotal=3, ItemMax=1, MaxEvals=2, MaxDepth=2, KFs=tla_set(['mod2']),
                       Aggs=tla_set(['Max', 'Avg', 'Sum']), VFs=tla_set(['ident']), LimitNs='{99, 1}')
 
@@ -672,8 +756,10 @@ def model_level_jobs(tier):
         runs.append(dict(label='historic mechanism %s rejected' % m, module='MC_C16', cfg='MC_C16_full',
                          constants=dict(globals()[uname], Fixes=tla_set(ALL_FIXES), Mutant='"%s"' % m),
                          expect='LawRefGroup', workers=2, heap='2g'))
-    muts = [('carry', SMALL_NESTED), ('avgint', SMALL_NESTED), ('curagg', SMALL_INNER)] if tier == 'quick' else \
-        [('carry', SMALL_NESTED), ('avgint', SMALL), ('limit1', SMALL), ('firstlast', SMALL), ('curagg', SMALL_INNER)]
+    muts = [('carry', SMALL_NESTED), ('avgint', SMALL_NESTED), ('curagg', SMALL_INNER), ('minnum', SMALL_ORD)] \
+        if tier == 'quick' else \
+        [('carry', SMALL_NESTED), ('avgint', SMALL), ('limit1', SMALL), ('firstlast', SMALL), ('curagg', SMALL_INNER),
+         ('minnum', SMALL_ORD), ('sampledrop', SMALL_CONS), ('list2swap', SMALL_CONS), ('limit1', SMALL_CONS)]
     for m, universe in muts:
         runs.append(dict(label='mutant %s rejected' % m, module='MC_C16', cfg='MC_C16',
                          constants=dict(universe, Mutant='"%s"' % m), expect='any', workers=2, heap='2g'))
